@@ -509,6 +509,10 @@ func httpStack(spec string) ([]failsafe.Policy[*http.Response], string) {
 			if strings.HasSuffix(q, "b") {
 				b.WithBackoff(2*time.Millisecond, 20*time.Millisecond)
 				q = q[:len(q)-1]
+			} else if strings.HasSuffix(q, "d") {
+				// suffix d: a random delay is configured on the HTTP retry builder as well (the Retry-After still takes precedence)
+				b.WithRandomDelay(time.Millisecond, 3*time.Millisecond)
+				q = q[:len(q)-1]
 			}
 			ps = append(ps, b.WithMaxRetries(int(atoi(q))).Build())
 		case p == "to":
@@ -993,9 +997,9 @@ func genAdapters(r *rand.Rand, n int, tier string, emit func(string) string) {
 		m := r.Intn(4)
 		rpk := pick(r, "rp", "rp", "rpl")
 		stack := fmt.Sprintf("%s%d", rpk, m)
-		backoff := r.Intn(4) == 0
+		backoff := r.Intn(3) == 0 && m > 0
 		if backoff {
-			stack += "b"
+			stack += pick(r, "b", "d")
 		}
 		if stackInner != "" {
 			stack += "," + stackInner
@@ -1016,6 +1020,9 @@ func genAdapters(r *rand.Rand, n int, tier string, emit func(string) string) {
 			el := pick(r, statuses...)
 			if r.Intn(7) == 0 {
 				el = "err"
+			}
+			if backoff && j == 0 {
+				el = pick(r, "429", "503") // the first answer asks to come back later (Retry-After, below)
 			}
 			if el != "err" {
 				if (el == "429" || el == "503") && (r.Intn(3) == 0 || (backoff && !waited)) {
